@@ -3909,8 +3909,11 @@ class Graph(_protocols.GraphProtocol, Sequence[Node], _display.PrettyPrintable):
             A deep copy of this graph.
 
         Raises:
-            ValueError: If ``allow_outer_scope_values`` is False and the graph
-                references values from outer scopes.
+            RuntimeError: If ``allow_outer_scope_values`` is False and the graph
+                references values from outer scopes, or if a node uses a value before
+                the node that defines it (the graph is not sorted). The error names the
+                cloning step; its ``__cause__`` chain ends in the ``ValueError`` that
+                describes the offending value.
         """
         from onnx_ir import _cloner
 
